@@ -54,6 +54,14 @@ def ns_inputs(draw, tier, full_rank_only=False, rank_def_only=False, wide_range=
     else:
         A, pat = draw(gen.qarray(m, n, draw(st.sampled_from(["generic", "int", "pure_imag", "sparse"]))))
         kind = "pattern:" + pat
+    if src == "pattern" and draw(st.integers(0, 3)) == 0 and min(m, n) >= 2:
+        # exactly empty rows / columns (structurally empty lines of a sparse operand)
+        A = A.copy()
+        if draw(st.booleans()):
+            A[:, draw(st.integers(0, n - 1))] = 0.0
+        else:
+            A[draw(st.integers(0, m - 1))] = 0.0
+        kind = kind + "|empty_line"
     if draw(st.integers(0, 3)) == 0:
         A = A * 10.0 ** draw(st.sampled_from([-10, -9, -8, -6, 6, 8]))      # the recurrence is scale covariant
         kind = kind + "|scaled"
